@@ -63,14 +63,15 @@ type marker struct{ N int }
 type syncMsg struct{}
 
 type rig struct {
-	e      *actor.Engine
-	mu     sync.Mutex
-	logs   map[string][]Ev
-	pids   map[string]*actor.PID
-	copies map[string]*actor.PID
-	flush  chan int
-	fcount atomic.Int64      // everything the flush subscriber has seen except markers
-	names  map[string]string // pid id -> model name
+	e       *actor.Engine
+	mu      sync.Mutex
+	logs    map[string][]Ev
+	pids    map[string]*actor.PID
+	copies  map[string]*actor.PID
+	flush   chan int
+	fcount  atomic.Int64      // everything the flush subscriber has seen except markers
+	names   map[string]string // pid id -> model name
+	respawn map[string]bool   // the recorder spawns a successor from its Stopped handler
 }
 
 func (r *rig) nameOf(p *actor.PID) string {
@@ -130,6 +131,16 @@ func (r *rig) recorder(name string) actor.Producer {
 	return func() actor.Receiver {
 		return recv(func(c *actor.Context) {
 			switch m := c.Message().(type) {
+			case actor.Stopped:
+				// "respawn": the successor is spawned under the same id from inside the Stopped handler and subscribes
+				r.mu.Lock()
+				again := r.respawn[name]
+				r.respawn[name] = false
+				r.mu.Unlock()
+				if again {
+					np := c.Engine().Spawn(r.recorder(name), "sub", actor.WithID(name))
+					c.Engine().Subscribe(np)
+				}
 			case syncMsg:
 				c.Respond(syncMsg{})
 			case marker:
@@ -186,7 +197,7 @@ func runCase(c *Case) (seen map[string][]Ev, problem string) {
 	if err != nil {
 		panic(err)
 	}
-	r := &rig{e: e, logs: map[string][]Ev{}, pids: map[string]*actor.PID{}, copies: map[string]*actor.PID{}, flush: make(chan int, 1024), names: map[string]string{}}
+	r := &rig{e: e, logs: map[string][]Ev{}, pids: map[string]*actor.PID{}, copies: map[string]*actor.PID{}, flush: make(chan int, 1024), names: map[string]string{}, respawn: map[string]bool{}}
 	live := map[string]bool{}
 	for name := range c.Got {
 		r.pids[name] = e.Spawn(r.recorder(name), "sub", actor.WithID(name))
@@ -266,6 +277,18 @@ func runCase(c *Case) (seen map[string][]Ev, problem string) {
 				return r.snapshot(), "harness: subscriber does not stop"
 			}
 			live[op.P] = false
+		case "respawn":
+			if !r.quiesce(&nmark, live, 1) {
+				return r.snapshot(), "events keep flowing: the engine does not quiesce"
+			}
+			r.mu.Lock()
+			r.respawn[op.P] = true
+			r.mu.Unlock()
+			select {
+			case <-e.Poison(r.pids[op.P]).Done():
+			case <-time.After(5 * time.Second):
+				return r.snapshot(), "harness: subscriber does not stop"
+			}
 		case "send":
 			var target, sender *actor.PID
 			switch op.Target {
